@@ -597,28 +597,60 @@ func ruleWildcards(c *Ctx, r *Report) {
 		if f == nil {
 			return
 		}
-		got := map[string]bool{}
-		ast.Inspect(f.Decl.Body, func(n ast.Node) bool {
-			be, ok := n.(*ast.BinaryExpr)
-			if !ok || (be.Op != token.EQL && be.Op != token.NEQ) {
-				return true
-			}
-			for _, pr := range [][2]ast.Expr{{be.X, be.Y}, {be.Y, be.X}} {
-				if v, ok := f.Info().Types[pr[1]]; ok && v.Value != nil && v.Value.ExactString() == `"*"` {
-					kind, idx := wildcardOperand(f, pr[0], 0)
-					if kind != "" {
-						got[fmt.Sprintf("%s-of-param#%d", kind, idx)] = true
-					}
-				}
-			}
-			return true
-		})
+		got := wildcardCompares(c, f, 0)
 		for _, n := range needs {
 			r.Check(got[n], "util."+fname+":wildcard:"+n, c.Pos(f.Decl.Pos()), n+" compared with \"*\"", fname+" no longer treats "+n+" == \"*\" as a wildcard")
 		}
 	}
 	check("comparePathElem", "keyvalue-of-param#0", "keyvalue-of-param#1")
 	check("PathMatchesQuery", "name-of-param#1", "keyvalue-of-param#1")
+}
+
+// wildcardCompares: the set of "<kind>-of-param#<i>" operands f compares with "*", including those
+// compared in the module helpers f calls (the helper's parameter index is mapped to the parameter
+// of f its argument derives from).
+func wildcardCompares(c *Ctx, f *FuncInfo, depth int) map[string]bool {
+	got := map[string]bool{}
+	info := f.Info()
+	ast.Inspect(f.Decl.Body, func(n ast.Node) bool {
+		switch x := n.(type) {
+		case *ast.BinaryExpr:
+			if x.Op != token.EQL && x.Op != token.NEQ {
+				return true
+			}
+			for _, pr := range [][2]ast.Expr{{x.X, x.Y}, {x.Y, x.X}} {
+				if v, ok := info.Types[pr[1]]; ok && v.Value != nil && v.Value.ExactString() == `"*"` {
+					kind, idx := wildcardOperand(f, pr[0], 0)
+					if kind != "" {
+						got[fmt.Sprintf("%s-of-param#%d", kind, idx)] = true
+					}
+				}
+			}
+		case *ast.CallExpr:
+			if depth >= 2 {
+				return true
+			}
+			g := c.funcOfCallee(Callee(info, x))
+			if g == nil || g == f || g.Decl.Body == nil || g.Obj.Pkg() != f.Obj.Pkg() {
+				return true
+			}
+			for k := range wildcardCompares(c, g, depth+1) {
+				var kind string
+				var j int
+				if i := strings.LastIndex(k, "-of-param#"); i >= 0 {
+					kind = k[:i]
+					fmt.Sscanf(k[i+len("-of-param#"):], "%d", &j)
+				}
+				if j < len(x.Args) {
+					if rp := rootParam(f, x.Args[j], 0); rp >= 0 {
+						got[fmt.Sprintf("%s-of-param#%d", kind, rp)] = true
+					}
+				}
+			}
+		}
+		return true
+	})
+	return got
 }
 
 // wildcardOperand classifies an expression compared with "*": ("name"|"keyvalue", index of the
@@ -728,7 +760,11 @@ func rootParam(f *FuncInfo, e ast.Expr, depth int) int {
 // present: a single-value lookup yields "" for a missing key, so comparing it with a value that can
 // itself be "" (another key's value, a variable) conflates "missing" with "empty".
 func ruleKeyMapLookup(c *Ctx, r *Report, rel string, files ...string) {
-	r.Rule("R-KEYMAP-LOOKUP", "a lookup in a gNMI key map (map[string]string) whose result is compared with a non-constant or empty value uses the comma-ok form (or indexes with the range key of the same map): a missing key is not an empty key value", 3)
+	ruleKeyMapLookupN(c, r, 3, rel, files...)
+}
+
+func ruleKeyMapLookupN(c *Ctx, r *Report, floor int, rel string, files ...string) {
+	r.Rule("R-KEYMAP-LOOKUP", "a lookup in a gNMI key map (map[string]string) whose result is compared with a non-constant or empty value — directly or through the local it is kept in — uses the comma-ok form (or indexes with the range key of the same map): a missing key is not an empty key value", floor)
 	want := map[string]bool{}
 	for _, f := range files {
 		want[rel+"/"+f] = true
@@ -789,6 +825,39 @@ func ruleKeyMapLookup(c *Ctx, r *Report, rel string, files ...string) {
 				}
 				r.Bad(key, c.Pos(ix.Pos()), fmt.Sprintf("%s compares the single-value lookup %s with %s: a key that is missing from the map yields \"\" and is treated like a key whose value is the empty string (e.g. list[name=] vs list[id=1] compare equal)", f.Name, types.ExprString(ix), types.ExprString(other)))
 				return true
+			}
+			// single-value lookup kept in a local: the local must not be tested for emptiness
+			// (that is the same conflation one statement later).
+			if as, ok := pm[ix].(*ast.AssignStmt); ok && len(as.Lhs) == 1 && len(as.Rhs) == 1 {
+				if obj := ObjOf(info, as.Lhs[0]); obj != nil {
+					var bad ast.Expr
+					ast.Inspect(f.Decl.Body, func(y ast.Node) bool {
+						be, ok := y.(*ast.BinaryExpr)
+						if !ok || (be.Op != token.EQL && be.Op != token.NEQ) || bad != nil {
+							return bad == nil
+						}
+						for _, pair := range [][2]ast.Expr{{be.X, be.Y}, {be.Y, be.X}} {
+							a, b := ast.Unparen(pair[0]), pair[1]
+							if ObjOf(info, a) == obj {
+								if v, isC := ConstOf(info, b); isC && v == `""` {
+									bad = be
+								}
+							}
+							if call, ok := a.(*ast.CallExpr); ok && len(call.Args) == 1 && ObjOf(info, call.Args[0]) == obj {
+								if id, ok := call.Fun.(*ast.Ident); ok && id.Name == "len" {
+									if v, isC := ConstOf(info, b); isC && v == "0" {
+										bad = be
+									}
+								}
+							}
+						}
+						return bad == nil
+					})
+					if bad != nil {
+						r.Bad(key, c.Pos(ix.Pos()), fmt.Sprintf("%s keeps the single-value lookup %s in %s and tests %s: a key that the path gives with the empty string as its value is treated as a key the path leaves out (an entry whose key is \"\" can no longer be addressed)", f.Name, types.ExprString(ix), obj.Name(), types.ExprString(bad)))
+						return true
+					}
+				}
 			}
 			r.OK(key, c.Pos(ix.Pos()), "value use (no comparison)")
 			return true
